@@ -51,7 +51,15 @@ def explore_generic(ctx, spec, budget, rule, exhaustive=False, chunk=200000):
     def flush(batch):
         if not batch:
             return
-        impls = [spec.impl(c) for c in batch]
+        def safe_impl(c):
+            # an exception escaping the adapter means the implementation raised where the
+            # adapter expects none: reported as a disagreement with the model, not as an
+            # infrastructure failure
+            try:
+                return spec.impl(c)
+            except Exception as e:   # noqa
+                return 'adapter-raised:%s:%s' % (type(e).__name__, str(e)[:120])
+        impls = [safe_impl(c) for c in batch]
         reqs = [spec.request(c) for c in batch]
         idx = [i for i, r in enumerate(reqs) if r is not None]
         if idx:
@@ -69,7 +77,11 @@ def explore_generic(ctx, spec, budget, rule, exhaustive=False, chunk=200000):
                     dist['disagreement'] = dist.get('disagreement', 0) + 1
         for c, r in zip(batch, impls):
             res['evaluations'] += 1
-            vs = spec.oracle(c, r)
+            try:
+                vs = spec.oracle(c, r)
+            except Exception as e:   # noqa
+                vs = [{'what': 'the implementation raised %s while the property was being checked: %s'
+                               % (type(e).__name__, str(e)[:200]), 'case': spec.sample(c)}]
             for v in vs:
                 # keep up to 20 witnesses per finding class so that listed
                 # findings never crowd out an unlisted violation
